@@ -134,6 +134,7 @@ class Patterns:
     unicode_escape = LazyPattern(r'(?:\\u([0-9A-Fa-f]{4})|\\U([0-9A-Fa-f]{8}))')
     wrong_escape = LazyPattern(r'%(?![a-fA-F\d]{2})')
     xml_newlines = LazyPattern('\r\n|\r|\n')
+    xpath1_number = LazyPattern(r'^[ \t\r\n]*-?(?:[0-9]+(?:\.[0-9]*)?|\.[0-9]+)[ \t\r\n]*$')
 
     # Regex patterns related to names and namespaces
     namespace_uri = LazyPattern(r'{([^}]+)}')
